@@ -161,6 +161,38 @@ func Fork(db *DB, path string) *DB {
 	return c
 }
 
+// CopyPath models copying the database file at src to dst (io.Copy between two
+// files): dst holds a copy of src's committed content.
+func CopyPath(src, dst string) bool {
+	db, ok := registry[src]
+	if !ok {
+		return false
+	}
+	c := &DB{root: db.root.clone(), path: dst}
+	c.root.normalize()
+	registry[dst] = c
+	return true
+}
+
+// RenamePath models os.Rename of a database file.
+func RenamePath(from, to string) bool {
+	db, ok := registry[from]
+	if !ok {
+		return false
+	}
+	delete(registry, from)
+	db.path = to
+	registry[to] = db
+	return true
+}
+
+// CreatePath models os.Create of a file that will receive a database image.
+func CreatePath(path string) {
+	registry[path] = &DB{root: &node{}, path: path}
+}
+
+func PathExists(path string) bool { _, ok := registry[path]; return ok }
+
 func (db *DB) Path() string     { return db.path }
 func (db *DB) Close() error     { db.closed = true; return nil }
 func (db *DB) Stats() Stats     { return Stats{} }
@@ -266,7 +298,17 @@ func (db *DB) Update(fn func(*Tx) error) error {
 	return tx.commit()
 }
 
-func (db *DB) Batch(fn func(*Tx) error) error { return db.Update(fn) }
+// Batch: bbolt runs the function inside a (possibly shared) batch transaction;
+// when the function fails, the batch is rolled back and the failing function is
+// run again on its own with Update, whose result the caller gets. With a single
+// caller that is: run it, and on failure run it once more.
+func (db *DB) Batch(fn func(*Tx) error) error {
+	err := db.Update(fn)
+	if err != nil {
+		err = db.Update(fn)
+	}
+	return err
+}
 
 func (db *DB) View(fn func(*Tx) error) error {
 	tx, err := db.Begin(false)
